@@ -268,7 +268,7 @@ def run(ctx: fw.Ctx):
     ]
     ctx.assumptions = ["edits through identifier references are decided by C11",
                        "'canonical' is judged operationally (fixed point of parse/rebuild)"]
-    stride, nrand, maxops = (5, 800, 8) if ctx.quick else (1, 12000, 30)
+    stride, nrand, maxops = (3, 800, 8) if ctx.quick else (1, 12000, 30)
     hists = ep.build_stream(ctx, stride, nrand, maxops, enum_offset=3)
     ec.correspond(ctx, hists)
     observe(ctx, hists)
